@@ -78,6 +78,8 @@ class QRStub:
         self.fail = fail
         self.real_in_replay = real_in_replay
         self.by_solver = {}
+        self.n_solves = 0  # one solve per quantile: the fault hook is indexed by solves (== fit calls while every fit has one quantile)
+        self._nested = False
         self._orig_fit = None
         self._orig_predict = None
         self._sig = None
@@ -113,10 +115,31 @@ class QRStub:
         rec = dict(A, index=idx)
         self.calls.append(rec)
         self.by_solver.setdefault(id(qself), []).append(rec)
-        if self.fail is not None:
-            e = self.fail(idx, rec)
+        taus_l = [A["taus"]] if isinstance(A["taus"], float) else list(A["taus"])
+        base = self.n_solves
+        rec["solve_index"] = base
+        if not self._nested:
+            self.n_solves += len(taus_l)
+        if self.fail is not None and not self._nested:
+            e, fj = None, 0
+            for fj in range(len(taus_l)):
+                e = self.fail(base + fj, rec)
+                if e is not None:
+                    break
             if e is not None:
                 rec["failed"] = True
+                if fj > 0:
+                    # the real solver appends one coefficient vector per quantile as it goes: the quantiles solved before the
+                    # failing one stay behind in solver.coefficients
+                    self._nested = True
+                    try:
+                        self._fit(qself, **dict(A, taus=taus_l[:fj]))
+                    finally:
+                        self._nested = False
+                    inner = self.calls.pop()
+                    self.by_solver[id(qself)].remove(inner)
+                    rec["partial_coefs"] = inner.get("coefs")
+                    A = dict(A, taus=taus_l[fj:])
                 if isinstance(e, Warning):
                     import warnings
 
@@ -127,6 +150,7 @@ class QRStub:
                     rec["warning_not_raised"] = True
                 else:
                     raise e
+        lab = ("%dp" % (idx - 1)) if self._nested else str(idx)
         x, y = np.asarray(A["x"], dtype=object), np.asarray(A["y"], dtype=object)
         taus = A["taus"]
         taus = [taus] if isinstance(taus, float) else list(taus)
@@ -140,10 +164,10 @@ class QRStub:
             n0 = len(qself.coefficients)
             for tau in taus:  # keep the recorded stub sequence aligned (values are ignored: the real solver decides)
                 if self.mode == "median" and x.shape[1] == 1:
-                    ctx.stub_value("qr%d_tau%s" % (idx, tau))
+                    ctx.stub_value("qr%s_tau%s" % (lab, tau))
                 else:
                     for j in range(x.shape[1]):
-                        ctx.stub_value("qr%d_tau%s[%d]" % (idx, tau, j))
+                        ctx.stub_value("qr%s_tau%s[%d]" % (lab, tau, j))
             r = self._orig_fit(qself, **A2)
             rec["coefs"] = [np.asarray(c, dtype=float) for c in qself.coefficients[n0:]]
             return r
@@ -158,7 +182,7 @@ class QRStub:
         for tau in taus:
             if self.mode == "median" and x.shape[1] == 1 and all(
                     (not isinstance(e, Sym)) and e == 1 for e in x[:, 0]) and not getattr(ctx, "concrete", False):
-                c = ctx.stub_real("qr%d_tau%s" % (idx, tau))
+                c = ctx.stub_real("qr%s_tau%s" % (lab, tau))
                 W = w.sum()
                 below = sum((sym.ite(yi < c, wi, 0) for yi, wi in zip(y, w)), 0)
                 upto = sum((sym.ite(yi <= c, wi, 0) for yi, wi in zip(y, w)), 0)
@@ -166,7 +190,7 @@ class QRStub:
                 coefs.append(obj_array([c]))
             else:
                 args = cells(x, y, w) + [RV(float(tau)), term(A["lambda_"]), RV(int(bool(A["fit_intercept"])))]
-                outs = stub_values(ctx, "QR_%dx%d" % x.shape, args, x.shape[1], label="qr%d_tau%s" % (idx, tau))
+                outs = stub_values(ctx, "QR_%dx%d" % x.shape, args, x.shape[1], label="qr%s_tau%s" % (lab, tau))
                 coefs.append(obj_array(outs))
         rec["coefs"] = coefs
         for c in coefs:
